@@ -534,3 +534,49 @@ class FoldMaps:
             v = branch_value(els) if els else None
             ctx.ob("M-FOLD", "%s unknown keyword rejected" % fname, v is not None and v["k"] == "Ret",
                    "the final else of the chain must return Err")
+
+
+def rule_K_COPULAS(ctx):
+    """the copula look-ahead list of the enum format = every copula field of the statement section, each exactly once"""
+    ctx.rule("K-COPULAS", "NarseseFormat::copulas() (the look-ahead list that terminates atom names) enumerates every `copula_*` field of "
+             "NarseseFormatStatement exactly once -- sibling of the parse_statement chain and of the struct definition")
+    f = ctx.facts
+    it = f.hir_fn("copulas", module="impl_enum::format")
+    ctx.fn(it)
+    arr = [n for n in hir.walk(it["body"]) if n.get("k") == "Array"]
+    if len(arr) != 1:
+        ctx.unrecognised("K-COPULAS", "copulas", "body is not a single array literal")
+        return
+    got = [table_field(field_path(x)) for x in arr[0]["elems"]]
+    adt = f.adts.get("conversion::string::impl_enum::format::NarseseFormatStatement")
+    if adt is None:
+        raise AnchorMissing("NarseseFormatStatement")
+    want = sorted("statement." + fd["name"] for fd in adt["variants"][0]["fields"] if fd["name"].startswith("copula_"))
+    ctx.floor("copula fields", len(want), 13)
+    for w in want:
+        ctx.ob("K-COPULAS", w, got.count(w) == 1, "appears %d times in the look-ahead list %s" % (got.count(w), [g for g in got if got.count(g) > 1][:2]))
+    ctx.ob("K-COPULAS", "no foreign entries", all(g in want for g in got), "%s" % [g for g in got if g not in want])
+
+
+def rule_U_CHARS(ctx, modules=("impl_lexical::parser", "impl_enum::parser")):
+    """borders into the char environment are char counts"""
+    import mir as M
+    ctx.rule("U-CHARS", "the parse environments are char vectors, so every border is a char count: no byte length (`str::len`, `String::len`) "
+             "is taken anywhere in the parser modules (keyword lengths go through chars().count())")
+    f = ctx.facts
+    n = 0
+    bad = []
+    for p, b in f.mir.items():
+        if not any(m in p for m in modules):
+            continue
+        n += 1
+        for bi, t in M.cfg(b).calls("len"):
+            cp = M.callee_path(t) or ""
+            if cp.startswith("core::str::") or cp.startswith("std::string::String::"):
+                bad.append((b, t))
+    ctx.floor("parser functions scanned for byte lengths", n, 25)
+    for b, t in bad:
+        ctx.ob("U-CHARS", "%s takes a byte length" % b["name"], False, "`%s` at line %s: byte length used where char counts are required (non-ASCII keywords)" % (M.callee_path(t), t["line"]),
+               "%s:%s" % (b["span"]["file"], t["line"]))
+    if not bad:
+        ctx.ob("U-CHARS", "no byte length taken in %s" % "/".join(m.split("::")[0] for m in modules), True)
